@@ -300,7 +300,7 @@ def r83(ctx):
             continue
         val = render(hv.expr(r["stmt"].rv.ops[0]))
         if val == "true":
-            ctx.ob("R8.3", hv.must_pass(r["block"], chk | appr) and bool(chk), f"{hb.name}/true-needs-check-or-approval",
+            ctx.ob("R8.3", hv.must_pass(R.site_block(r), chk | appr) and bool(chk), f"{hb.name}/true-needs-check-or-approval",
                    "handle_proposed_onchain can approve without a passed check or an explicit approval", where=f"{hb.file}:{r['line']}",
                    sample="Ok(true) dominated by Ok(check_onchain_tx) or approve_onchain == true")
     # approval only for the UnknownDestinations kind
@@ -341,7 +341,7 @@ def r84(ctx):
     live = fv.reach(0, cut_edges=cut)
     vals = []
     for r in fv.return_sites():
-        if r["block"] in live and r["kind"] == "ok" and "stmt" in r:
+        if R.site_block(r) in live and r["kind"] == "ok" and "stmt" in r:
             vals.append(render(fv.expr(r["stmt"].rv.ops[0])))
     ctx.ob("R8.4", bool(cut) and vals == ["false"], f"{b.name}/empty-path", f"with an empty path can_spend returns {vals}",
            where=f"{b.file}:{b.line}", sample=vals)
@@ -366,7 +366,7 @@ def r84(ctx):
         if r["kind"] == "ok" and "stmt" in r:
             v = render(fv.expr(r["stmt"].rv.ops[0]))
             if v == "true":
-                ctx.ob("R8.4", fv.must_pass(r["block"], eq), f"{b.name}/true-needs-match", "can_spend returns true without a script match",
+                ctx.ob("R8.4", fv.must_pass(R.site_block(r), eq), f"{b.name}/true-needs-match", "can_spend returns true without a script match",
                        where=f"{b.file}:{r['line']}", sample="Ok(true) dominated by a script equality")
 
 
